@@ -444,10 +444,13 @@ class Piece:
             if t.text == "log" and toks[k + 1].text == ":" and toks[k + 4].text == "!" and toks[k + 5].text == "(":
                 close = match_close(toks, k + 5)
                 inner = toks[k + 6:close]
-                if any(x.text == "(" and inner[i - 1].kind == "ident" and inner[i - 1].text not in ("Some",)
+                if any(x.text == "(" and inner[i - 1].kind == "ident" and inner[i - 1].text not in PURE_LOG
                        for i, x in enumerate(inner) if i > 0):
-                    raise Undecided(f"{fn.name}: log macro with a call in its arguments")
-                self._add(t.start, toks[close].end, "()", "T-LOG")
+                    if not (inner[0].kind == "lit" and inner[0].text.startswith('"')):
+                        raise Undecided(f"{fn.name}: log macro without a literal format string")
+                    self._add(t.start, toks[close].end, "{ " + self._log_arg_stmts(k + 6, close) + " }", "T-LOG")
+                else:
+                    self._add(t.start, toks[close].end, "()", "T-LOG")
                 k = close
             k += 1
         # T-ATTR inside bodies: #[cfg(feature = "crypto_openssl")] on statements/blocks (feature is on in every shipped build)
@@ -460,11 +463,25 @@ class Piece:
                 close = match_close(toks, k + 2)
                 into_err = toks[close + 1].text == "." and toks[close + 2].text == "into" and toks[k - 1].text != "&"
                 from_err = toks[k - 1].text == "(" and toks[k - 2].text == "from" and toks[k - 4].text == ":" and toks[k - 5].text == "Error"
-                if into_err or from_err:
+                let_msg = False
+                if toks[k - 1].text == "=" and toks[k - 2].kind == "ident" and toks[k - 3].text == "let" and toks[close + 1].text == ";":
+                    # `let X = format!(..);` where X is only ever turned into an error (`X.into()`) or handed to the logger (`L.warn(&X)`)
+                    name, uses, ok = toks[k - 2].text, 0, True
+                    for j in range(close + 2, k1):
+                        if toks[j].kind == "ident" and toks[j].text == name and toks[j - 1].text != ".":
+                            uses += 1
+                            to_err = toks[j + 1].text == "." and toks[j + 2].text == "into" and toks[j + 3].text == "("
+                            to_log = toks[j - 1].text == "&" and toks[j - 2].text == "(" and toks[j - 3].text in ("warn", "info", "debug", "trace") and toks[j - 4].text == "."
+                            if toks[j - 1].text == "let":
+                                break   # shadowed from here on
+                            if not (to_err or to_log):
+                                ok = False
+                    let_msg = ok and uses > 0
+                if into_err or from_err or let_msg:
                     inner = toks[k + 3:close]
                     if not any(x.text == "(" and i > 0 and inner[i - 1].kind == "ident" and inner[i - 1].text not in PURE_LOG
                                for i, x in enumerate(inner)):
-                        self._add(t.start, toks[close].end, "crate::opaque_string()", "T-FMT")
+                        self._add(t.start, toks[close].end, "crate::opaque_string()", "T-FMT", order=(-99 if (let_msg and not (into_err or from_err)) else 0))
                 k = close
             k += 1
         # T-LOG (3): bare debug!(..) / info!(..) ... imported from the log crate
@@ -477,8 +494,11 @@ class Piece:
                 inner = toks[k + 3:close]
                 if any(x.text == "(" and i > 0 and inner[i - 1].kind == "ident" and inner[i - 1].text not in PURE_LOG
                        for i, x in enumerate(inner)):
-                    raise Undecided(f"{fn.name}: log macro with a call in its arguments")
-                self._add(t.start, toks[close].end, "()", "T-LOG")
+                    if not (inner[0].kind == "lit" and inner[0].text.startswith('"')):
+                        raise Undecided(f"{fn.name}: log macro without a literal format string")
+                    self._add(t.start, toks[close].end, "{ " + self._log_arg_stmts(k + 3, close) + " }", "T-LOG")
+                else:
+                    self._add(t.start, toks[close].end, "()", "T-LOG")
                 k = close
             k += 1
         # T-LOG (2): LOGGER.trace|debug|info|warn(&format!(..)) through the HasLogger trait
@@ -498,21 +518,7 @@ class Piece:
                 else:
                     # the message is dropped but its arguments are still evaluated (they may fail with `?`)
                     fclose = match_close(toks, k + 7)
-                    args, cur, j = [], None, k + 8
-                    while j < fclose:
-                        if toks[j].text in OPEN:
-                            j = match_close(toks, j) + 1
-                            continue
-                        if toks[j].text == ",":
-                            if cur is not None:
-                                args.append(self.sf.text[cur:toks[j].start].strip())
-                            cur = toks[j].end
-                        j += 1
-                    if cur is not None:
-                        last = self.sf.text[cur:toks[fclose].start].strip()
-                        if last:
-                            args.append(last)
-                    stmts = " ".join("let _ = " + (a.split("=", 1)[1].strip() if re.match(r"^\w+\s*=[^=]", a) else a) + ";" for a in args)
+                    stmts = self._log_arg_stmts(k + 8, fclose)
                     self._add(t.start, toks[close].end, "{ " + stmts + " }", "T-LOG")
                 k = close
             k += 1
@@ -674,6 +680,26 @@ class Piece:
             self._add(toks[fn.k1 - 1].end, toks[fn.k1 - 1].end, ")", "T-RET")
         if fs.sig:
             self._add(toks[fn.k1].start, toks[fn.k1].start, "\n" + fs.sig + "\n", "insert")
+
+    def _log_arg_stmts(self, kfirst, kclose):
+        """the arguments after the format string of a log/format macro (tokens kfirst..kclose), each kept as `let _ = ARG;`:
+        the message is dropped but whatever its arguments evaluate (and may fail on) stays in the verified text"""
+        toks = self.sf.toks
+        args, cur, j = [], None, kfirst
+        while j < kclose:
+            if toks[j].text in OPEN:
+                j = match_close(toks, j) + 1
+                continue
+            if toks[j].text == ",":
+                if cur is not None:
+                    args.append(self.sf.text[cur:toks[j].start].strip())
+                cur = toks[j].end
+            j += 1
+        if cur is not None:
+            last = self.sf.text[cur:toks[kclose].start].strip()
+            if last:
+                args.append(last)
+        return " ".join("let _ = " + (a.split("=", 1)[1].strip() if re.match(r"^\w+\s*=[^=]", a) else a) + ";" for a in args)
 
     def _stmt_bound(self, kt, kb, k1, before):
         """char position of the start (before=True) or end of the statement containing token kt"""
@@ -883,6 +909,12 @@ class Piece:
                 raise Undecided(f"{self.spec}: contract for unknown fn `{name}`")
         # apply edits
         text = self.sf.text
+        # a generic rewrite (order -99) gives way to a unit's own rewrite of the same text
+        hard = [e for e in self.edits if e.order != -99 and e.end > e.start]
+        soft_dropped = [e for e in self.edits if e.order == -99 and any(h.start < e.end and e.start < h.end for h in hard)]
+        if soft_dropped:
+            self.edits = [e for e in self.edits if e not in soft_dropped]
+            self.rewrites_log = [r for r in self.rewrites_log if not any(r.get("from") == text[e.start:e.end] and r.get("to") == e.text for e in soft_dropped)]
         self.edits.sort(key=lambda e: (e.start, e.end == e.start and -1 or 0, -e.order))
         out, segs, pos = [], [], it.start
         for e in self.edits:
